@@ -146,6 +146,15 @@ func (p *Path) abort(kind, reason string) {
 	panic(pathAbort{kind, reason})
 }
 
+// callChain renders the Go call stack of the program under analysis (innermost first).
+func callChain(fr *frame, n int) string {
+	var parts []string
+	for f := fr; f != nil && len(parts) < n; f = f.caller {
+		parts = append(parts, f.fn.Name())
+	}
+	return strings.Join(parts, " <- ")
+}
+
 func (p *Path) unsupported(fr *frame, pos token.Pos, what string) {
 	p.abort("inconclusive", "unsupported: "+what+" at "+p.where(fr, pos))
 }
